@@ -123,6 +123,12 @@ class Subject(object):
     def fresh(self):
         return self.pgpy.PGPKey.from_blob(self.start_blob)[0]
 
+    def make_oldformat(self):
+        """the same key as it comes from GnuPG < 2.4 and most key files: every packet with an old-format header."""
+        self.start_blob = b''.join(build.pkt(t_, b_, fmt='old') for t_, b_, r_ in build.read_packets(self.clear_blob))
+        self.alg = self.alg + '-old-format-headers'
+        return self
+
     def make_split(self):
         """the same key with its components under DIFFERENT passphrases (primary p1, subkeys a third one), as GnuPG >= 2.1 can export
         them: no single passphrase unlocks it, so in KeyProtect's terms it starts locked under a passphrase nobody offers."""
@@ -194,7 +200,10 @@ class Subject(object):
                   'fingerprints': [str(pub.fingerprint)] + [str(s_.fingerprint) for s_ in pub.subkeys.values()]}
             po['private_ops'] = self.private_ops(pub)
             if po['private_ops'] == 'all-refused':
-                po['private_ops'] = self.private_ops(pgpy.PGPKey.from_blob(pblob)[0])
+                try:
+                    po['private_ops'] = self.private_ops(pgpy.PGPKey.from_blob(pblob)[0])
+                except Exception:
+                    pass           # the public export cannot be read back: its packet structure is judged by TLC from the octets (C07.tags)
             o['pub'] = po
             k2 = None
             if with_reimport:
@@ -352,7 +361,7 @@ def generate(ctx, focus):
     behs = sorted({tuple(tuple(s) for s in p[1]) for p in g.prints if isinstance(p, list) and p and p[0] == 'BEH'})
     if len(behs) < 2000:
         raise MachineryError('Gen_KeyProtect produced %d behaviours' % len(behs))
-    kinds = [('ed25519', ['cv25519', 'ed25519']), ('rsa2048', ['rsa2048']), ('p256', ['ecdh256']), ('foreign-ecdh-kdf', []), ('ed25519+split', ['cv25519'])]
+    kinds = [('ed25519', ['cv25519', 'ed25519']), ('rsa2048', ['rsa2048']), ('p256', ['ecdh256']), ('foreign-ecdh-kdf', []), ('ed25519+split', ['cv25519']), ('p256+oldfmt', ['ecdh256'])]
     if not ctx.quick:
         kinds += [('dsa1024', ['rsa2048']), ('p384', ['ecdh384']), ('rsa3072', ['cv25519']), ('k256', ['ed25519'])]
     traces = []
@@ -360,9 +369,11 @@ def generate(ctx, focus):
     try:
         for ki, (alg, subs) in enumerate(kinds):
             try:
-                S = Subject(alg.replace('+split', ''), subs)
+                S = Subject(alg.replace('+split', '').replace('+oldfmt', ''), subs)
                 if alg.endswith('+split'):
                     S.make_split()
+                if alg.endswith('+oldfmt'):
+                    S.make_oldformat()
             except Exception as ex:
                 ctx.note('key kind %s unavailable: %s' % (alg, repr(ex)[:100]))
                 continue
